@@ -219,8 +219,65 @@ func instantiateFacts(asserts []*Term, limit int) []*Term {
 	var qs []guardedQ
 	pending := asserts
 	tried := map[[3]int]bool{} // (quantifier, binder, instance term)
+	unfoldDepth := map[int]int{}
 	for round := 0; round < 5 && len(pending) > 0; round++ {
 		collectGround(pending, g)
+		// bounded unfolding of recursive specification functions
+		var unf []*Term
+		if len(recDefs) > 0 {
+			seenU := map[int]bool{}
+			var walkU func(t *Term, depth int)
+			walkU = func(t *Term, depth int) {
+				if seenU[t.id] {
+					return
+				}
+				seenU[t.id] = true
+				if t.Op == "app" && !t.open {
+					if rd, ok := recDefs[t.Name]; ok && len(rd.params) == len(t.Args) {
+						d, known := unfoldDepth[t.id]
+						if !known {
+							d = depth
+							unfoldDepth[t.id] = d
+						}
+						if d < 2 && !tried[[3]int{t.id, -1, -1}] {
+							tried[[3]int{t.id, -1, -1}] = true
+							m := map[*Term]*Term{}
+							for i, pb := range rd.params {
+								m[pb] = t.Args[i]
+							}
+							inst := Subst(rd.body, m)
+							// applications introduced by this unfolding are one level deeper
+							var mark func(x *Term)
+							seenM := map[int]bool{}
+							mark = func(x *Term) {
+								if seenM[x.id] {
+									return
+								}
+								seenM[x.id] = true
+								if x.Op == "app" {
+									if _, ok := recDefs[x.Name]; ok {
+										if _, k := unfoldDepth[x.id]; !k {
+											unfoldDepth[x.id] = d + 1
+										}
+									}
+								}
+								for _, a := range x.Args {
+									mark(a)
+								}
+							}
+							mark(inst)
+							unf = append(unf, Eq(t, inst))
+						}
+					}
+				}
+				for _, a := range t.Args {
+					walkU(a, depth)
+				}
+			}
+			for _, a := range pending {
+				walkU(a, 0)
+			}
+		}
 		for _, a := range pending {
 			positiveForallsG(a, True, &qs)
 		}
@@ -261,6 +318,9 @@ func instantiateFacts(asserts []*Term, limit int) []*Term {
 					continue
 				}
 				for _, key := range ufArgPositions(q, k) {
+					if k.Sort == "Int" && !emit(gq, k, IntLit(0)) {
+						break outer
+					}
 					for _, E := range g.ufArg[key] {
 						if E.Sort == k.Sort && !emit(gq, k, E) {
 							break outer
@@ -284,6 +344,12 @@ func instantiateFacts(asserts []*Term, limit int) []*Term {
 						}
 					}
 				}
+			}
+		}
+		for _, u := range unf {
+			if !have[u.id] {
+				have[u.id] = true
+				news = append(news, u)
 			}
 		}
 		asserts = append(asserts, news...)
